@@ -133,3 +133,27 @@ pub mod fanout {
         Response::ok()
     }
 }
+
+/// Three generic constructors whose output types OVERLAP: `Wrapper<Option<Vec<u8>>>` can be built by
+/// any of them (T = Option<Vec<u8>>, T = Vec<u8>, T = u8); which one is picked must not depend on
+/// anything but the order of registration.
+pub mod generics {
+    use pavex::Response;
+    pub struct Wrapper<V>(pub V);
+    #[pavex::request_scoped(id = "GW_ANY")]
+    pub fn any<T>() -> Wrapper<T> {
+        todo!()
+    }
+    #[pavex::request_scoped(id = "GW_OPTIONAL")]
+    pub fn optional<T>() -> Wrapper<Option<T>> {
+        todo!()
+    }
+    #[pavex::request_scoped(id = "GW_LIST")]
+    pub fn list<T>() -> Wrapper<Option<Vec<T>>> {
+        todo!()
+    }
+    #[pavex::get(path = "/shapes/generics", id = "GW_HANDLER")]
+    pub fn handler(_w: Wrapper<Option<Vec<u8>>>) -> Response {
+        Response::ok()
+    }
+}
